@@ -80,6 +80,7 @@ theorem Store.withOut_out (σ : Store) : σ.withOut σ.out = σ := rfl
 @[simp] theorem Interp.State.addOut_inProgress (st : State) (o : List String) : (st.addOut o).inProgress = st.inProgress := rfl
 @[simp] theorem Interp.State.addOut_importEnd (st : State) (o : List String) : (st.addOut o).importEnd = st.importEnd := rfl
 @[simp] theorem Interp.State.addOut_files (st : State) (o : List String) : (st.addOut o).files = st.files := rfl
+@[simp] theorem Interp.State.addOut_dir (st : State) (o : List String) : (st.addOut o).dir = st.dir := rfl
 
 theorem Interp.State.withOut_nil_addOut (st : State) (o : List String) : (st.withOut []).addOut o = st.withOut o := rfl
 theorem Interp.State.withOut_out (st : State) : st.withOut st.store.out = st := rfl
@@ -665,12 +666,12 @@ theorem iobAt_zero : IOBAt 0 := by
 theorem findFactory_addOut (st : State) (o : List String) (name : LibName) (loc : Loc) :
     findFactory (st.addOut o) name loc = IAO o (findFactory st name loc) := by
   unfold findFactory
-  simp only [State.addOut_factories, State.addOut_files]
+  simp only [State.addOut_factories, State.addOut_files, State.addOut_dir]
   cases libLookup st.factories name with
   | some f => rfl
   | none =>
     simp only
-    cases st.files.lookup (libPath name) with
+    cases st.files.lookup (fileKey st.dir (libPath name)) with
     | none => rfl
     | some fe =>
       cases fe with
